@@ -52,6 +52,10 @@ type Program struct {
 	File  *File
 	Defs  []*Item          // Definition / Notation items in file order
 	Index map[string][]int // name -> indices into Defs (several if redefined)
+	// GoNames, when set, lists the package-level names the Go source declares: a Gallina
+	// identifier with such a name that no definition of the file provides is a dangling
+	// reference (stuck), not a library function the model lacks.
+	GoNames map[string]bool
 }
 
 func NewProgram(f *File) *Program {
@@ -335,6 +339,9 @@ func (in *Interp) global(th *Thread, name string, env *Env, scope int) Val {
 			stuck("definition %s mentions itself as a global (not through its rec binder)", name)
 		}
 		stuck("use of %s before its definition", name)
+	}
+	if in.Prog.GoNames[name] {
+		stuck("%s is declared by the Go package but the output has no definition of it", name)
 	}
 	unsupported("unknown global %s", name)
 	return nil
